@@ -355,7 +355,14 @@ inline bool plan_effect(Model const& M, ModelTraits const& T, Op const& op, Effe
 		MView v;
 		if(!model_view(M, T, op.db, op.b, op.cb, v) || v.D != D) return false;
 		bool const self_source = op.db == D && op.b == op.a;  // a view of the target itself
-		if((op.kind == O_ASSIGN_ITER || op.kind == O_ASSIGN_RANGE) && (v.n[0] < 1 || v.count() == 0)) return false;
+		if((op.kind == O_ASSIGN_ITER || op.kind == O_ASSIGN_RANGE) && (v.n[0] < 1 || v.count() == 0)) {
+			// an empty iterator range is in domain only for an empty target (nothing to do, and nothing may be dereferenced)
+			if(!(v.n[0] == 0 && M.at(D, op.a).count() == 0 && M.at(D, op.a).n[0] == 0 && !self_source)) return false;
+			bool regular = true;
+			for(int k = 1; k < v.D; ++k) regular &= v.n[k] >= 1;
+			if(!regular && M.at(op.db, op.b).count() != 0) return false;
+			var("empty-range");
+		}
 		if(T.static_arrays && op.kind != O_ASSIGN_VIEW) return false;  // assign/from are members of the resizable array only
 		if(op.var < 0 || op.var > 1) return false;
 		MArr const& a0   = M.at(D, op.a);
@@ -377,7 +384,9 @@ inline bool plan_effect(Model const& M, ModelTraits const& T, Op const& op, Effe
 		MArr& a = tgt(0, D, op.a);
 		var(rel_name(a0, v.count(), same));
 		if(op.var) var("moved-view");
-		set_dims(a, D, v.n);
+		bool const empty_range = (op.kind == O_ASSIGN_ITER || op.kind == O_ASSIGN_RANGE) && v.n[0] == 0;
+		// an empty range carries no shape beyond "no rows": the (empty) target keeps the extents it reports
+		if(!empty_range) set_dims(a, D, v.n);
 		a.v     = gather(M.at(op.db, op.b), v);
 		e.elems = v.count();
 		if(same && a0.count() > 0) e.expect_no_alloc = e.expect_base_unchanged = true;
